@@ -479,11 +479,12 @@ Lemma wf_unpack T D f : wf T D f = true ->
     /\ forallb (fun b => zlist_eqb (b_model b) (b_model b0)) (b0 :: rest0) = true
     /\ forallb (fun tb => forallb (fun b => zlist_eqb (b_tau b) (b_tau (hd_block tb))) tb) (f_times f) = true
     /\ existsb (id_eqb b0) rest0 = false
-    /\ nodup_keys (map (entry_of T D) (b0 :: rest0)) = true.
+    /\ nodup_keys (map (entry_of T D) (b0 :: rest0)) = true
+    /\ taus_distinct f = true.
 Proof.
   unfold wf. intros H. apply andb_true_iff in H as [Hs H].
   destruct (f_times f) as [|[|b0 rest0] ts] eqn:E; try discriminate.
-  apply andb_true_iff in H as [H H5]. apply andb_true_iff in H as [H H4].
+  apply andb_true_iff in H as [H H6]. apply andb_true_iff in H as [H H5]. apply andb_true_iff in H as [H H4].
   apply andb_true_iff in H as [H H3]. apply andb_true_iff in H as [H H2]. apply negb_true_iff in H4.
   exists b0, rest0, ts. repeat split; assumption.
 Qed.
@@ -531,7 +532,7 @@ Theorem read_enc T D f : wf T D f = true -> tables_ok T D = true ->
   impl_open T D (enc f) (4 * lenZ (enc f)) = Ok (view_of T D f).
 Proof.
   intros Hwf Hok.
-  destruct (wf_unpack T D f Hwf) as (b0 & rest0 & ts & Et & Hs & Hmeta & Hmodel & Htau & Hid & Hnd).
+  destruct (wf_unpack T D f Hwf) as (b0 & rest0 & ts & Et & Hs & Hmeta & Hmodel & Htau & Hid & Hnd & Htd).
   destruct (shape_lens f Hs) as (L1 & L2 & Hb).
   rewrite (enc_flat f Hs). unfold flat.
   destruct (flat_header (f_ftype f) (f_title f) (bodyw f) L1 L2) as (F1 & F2 & F3 & F4 & F5 & F6 & F7 & F8).
@@ -646,7 +647,7 @@ Proof. induction l; simpl; [reflexivity|]. rewrite IHl. reflexivity. Qed.
 Theorem write_view T D f : wf T D f = true -> impl_write (view_of T D f) = enc f.
 Proof.
   intros Hwf.
-  destruct (wf_unpack T D f Hwf) as (b0 & rest0 & ts & Et & Hs & Hmeta & Hmodel & Htau & Hid & Hnd).
+  destruct (wf_unpack T D f Hwf) as (b0 & rest0 & ts & Et & Hs & Hmeta & Hmodel & Htau & Hid & Hnd & Htd).
   destruct (shape_lens f Hs) as (L1 & L2 & Hb). rewrite forallb_concat in Hb.
   rewrite (enc_flat f Hs). unfold flat, impl_write, view_of, tb0.
   cbn [r_ftype r_title r_model r_vars r_taus r_data].
